@@ -30,6 +30,21 @@ type faultRT struct {
 	carried  [][]byte
 	answered []string
 	stales   sync.WaitGroup
+	panics   []string // panics of the body's Read under two concurrent readers (what would kill the agent)
+}
+
+// readBody reads from the request body and turns a panic of the reader (possible when the failed attempt's reader
+// and the retry use the unsynchronised seeker at the same time) into an error that is recorded.
+func (f *faultRT) readBody(r *http.Request, p []byte) (n int, err error) {
+	defer func() {
+		if x := recover(); x != nil {
+			f.mu.Lock()
+			f.panics = append(f.panics, fmt.Sprint(x))
+			f.mu.Unlock()
+			n, err = 0, fmt.Errorf("body reader panicked: %v", x)
+		}
+	}()
+	return r.Body.Read(p)
 }
 
 func (f *faultRT) RoundTrip(r *http.Request) (*http.Response, error) {
@@ -49,7 +64,7 @@ func (f *faultRT) RoundTrip(r *http.Request) (*http.Response, error) {
 		if sc.read >= 0 && sc.read-len(got) < n {
 			n = sc.read - len(got)
 		}
-		c, err := r.Body.Read(buf[:n])
+		c, err := f.readBody(r, buf[:n])
 		got = append(got, buf[:c]...)
 		if err != nil {
 			eof = true
@@ -68,7 +83,7 @@ func (f *faultRT) RoundTrip(r *http.Request) (*http.Response, error) {
 			left := sc.stale
 			b := make([]byte, 300)
 			for left > 0 {
-				c, err := r.Body.Read(b[:minI(len(b), left)])
+				c, err := f.readBody(r, b[:minI(len(b), left)])
 				left -= c
 				if err != nil {
 					return
@@ -127,6 +142,7 @@ func runUpload(chunks [][]byte, scripts []attemptScript) (*faultRT, bool, error)
 func suiteUpload(e *vh.Env) {
 	e.Result.Rule = "the real response forwarder (serialiser + bufferedReadSeeker + retry loop) with handler bodies sized around the 4096-byte replay limit and scripted proxy faults per attempt: kind {5xx, reset} x position {0, inside the head, 4095, 4096, 4097, after the body} x attempt {1, 2, 3}, with and without a lingering reader of the previous attempt; every attempt answered 2xx must have carried exactly the reference stream, at most 3 attempts, the handler must return; non-trivial = script with at least one failing attempt"
 	n := e.N(250, 8000)
+	blocked := 0
 	for i := 0; i < n; i++ {
 		if !e.Want(i) {
 			continue
@@ -178,10 +194,23 @@ func suiteUpload(e *vh.Env) {
 		what := fmt.Sprintf("case %d: stream %d bytes, attempt scripts %+v", i, len(stream), scripts)
 		if !ok {
 			e.Fail("C06:handler-blocked", what+": the backend-facing handler did not return within 5 s", i, nil, nil, nil)
+			if blocked++; blocked >= 3 {
+				break // every blocked case costs the 5 s watchdog; three concrete inputs are enough
+			}
 			continue
 		}
 		if len(rt.carried) > 1+utils.VerifMaxWriteResponseRetryCount {
 			e.Fail("C06:too-many-attempts", what+fmt.Sprintf(": %d attempts", len(rt.carried)), i, nil, len(rt.carried), 3)
+		}
+		rt.mu.Lock()
+		panics := append([]string(nil), rt.panics...)
+		rt.mu.Unlock()
+		if len(panics) > 0 {
+			key := "C06:body-reader-panic:exclusive-reader"
+			if stale {
+				key = "C06:body-reader-panic:retry-overlaps-live-body-reader"
+			}
+			e.Fail(key, what+fmt.Sprintf(": Read of the upload body panicked (%s); in the agent this is the transport's goroutine, i.e. the process dies", panics[0]), i, nil, nil, nil)
 		}
 		acked := false
 		for k, c := range rt.carried {
